@@ -583,14 +583,16 @@ func (w *c09World) sites() []fault {
 	return out
 }
 
-// errorKind: the failing callbacks of every third node report a field-less value-typed error, those of
-// another third an application error type with a Cause() method and no cause.
+// errorKind: the failing callbacks report, by node index, an ordinary error, a field-less value-typed error,
+// an application error type with a Cause() method and no cause, or context.Canceled (plain / wrapped).
 func errorKind(ns *world.NodeSpec, i int) {
-	switch i % 3 {
+	switch i % 4 {
 	case 1:
 		ns.ZeroValueErrors = true
 	case 2:
 		ns.CauselessErrors = true
+	case 3:
+		ns.CancelErrors = true
 	}
 }
 
